@@ -19,6 +19,14 @@ class AnalysisError(Exception):
     """The analyser cannot decide (anchor vanished, construct outside vocabulary)."""
 
 
+CACHED_PROPERTY_DECORATORS = ("functools.cached_property", "cached_property", "astropy.utils.lazyproperty", "lazyproperty",
+                              "astropy.utils.decorators.lazyproperty")
+
+
+def is_cached_property(fi):
+    return fi is not None and fi.kind == "property" and any(d in CACHED_PROPERTY_DECORATORS for d in (fi.decorators or []))
+
+
 @dataclass
 class FunctionInfo:
     module: str            # dotted module name
@@ -244,8 +252,8 @@ class Program:
                 if isinstance(sub, (ast.FunctionDef, ast.AsyncFunctionDef)):
                     decs = [ast.unparse(d) for d in sub.decorator_list]
                     kind = "method"
-                    if "property" in decs:
-                        kind = "property"
+                    if "property" in decs or any(d in CACHED_PROPERTY_DECORATORS for d in decs):
+                        kind = "property"      # functools.cached_property: a getter whose first result is kept in the instance dict
                     elif any(d.endswith(".setter") for d in decs):
                         kind = "setter"
                     elif "classmethod" in decs:
